@@ -285,7 +285,11 @@ func GenRecSystem(t *rapid.T) (*Grammar, map[string]bool) {
 			}
 			return SubU(u)
 		}
-		switch rapid.IntRange(0, 7).Draw(t, "np") {
+		switch rapid.IntRange(0, 9).Draw(t, "np") {
+		case 8, 9:
+			// the optional part sits inside the capture: @( x? ), @( x* )
+			used["after_capture_of_optional"] = true
+			return Cap(Group(rapid.SampledFrom([]string{"?", "*"}).Draw(t, "capopt"), c.leaf()))
 		case 6, 7:
 			// a choice of which only one alternative can match nothing: ( x | y? ), ( y? | x )
 			used["after_partly_nullable_choice"] = true
